@@ -26,6 +26,9 @@ def check(ctx: Ctx) -> None:
     rep.rule("R05.7", "work-conserving: the map-concurrency slot comes back only through the task's end callback, so that callback must begin "
                       "exactly once on every way a task can end - return, exception, cancellation (life-cycle typestate, shared with C03)")
     check_lifecycle(ctx, "R05.7", {"end"})
+    # premises of the registry-integrity lemma the typestate relies on (shared with C02/C03)
+    S.r_snapshot_forget(ctx, "R13.1")
+    S.r_registry_who(ctx, "R03.1")
     S.r_handoff(ctx, "R02.1")
 
 
